@@ -7,6 +7,8 @@
 mod util;
 
 pub mod codegen;
+#[cfg(pilota_verif)]
+pub(crate) mod verif_hook;
 pub mod db;
 pub(crate) mod errors;
 pub mod fmt;
